@@ -382,6 +382,95 @@ def run_histories(chk, scenarios):
             chk.violation(sig, "cook %d of the history %s in one process: %s" % (k + 1, core.jdump(h), v), {"history": h})
 
 
+RECIPE_TEXT = {
+    "A": 'def recipe(field_indexes, box_array):\n    """new1"""\n    k = list(field_indexes)\n    return box_array[..., field_indexes[k[0]]] * 2.0 + box_array[..., field_indexes[k[1]]]\n',
+    "B": 'def recipe(field_indexes, box_array):\n    """new1"""\n    k = list(field_indexes)\n    return box_array[..., field_indexes[k[0]]] - 3.0 * box_array[..., field_indexes[k[1]]]\n',
+}
+
+
+def recipe_histories(chk, only=None):
+    """RecipeCache.tla: histories of cooks with two recipe FILES of the same file name and different contents, in one process,
+    with the real (cached) pathos pool: every cook must evaluate the file it was given."""
+    from amr_kitchen.chef import Chef
+    r = chk.add_tlc(tlc.run("RecipeCache", {"INIT": "Init", "NEXT": "Next",
+                                            "CONSTANTS": {"MaxCooks": 2 if chk.tier == "quick" else 3, "ImportPolicy": '"exec-file"',
+                                                          "Transport": '"by-value"'},
+                                            "INVARIANTS": ["EveryCookEvaluatesItsOwnFile", "Emit"]}, workers=2, timeout=300),
+                    "recipe files of the same name (RecipeCache)")
+    if r.violated:
+        chk.note_drift("TLC: %s violated in RecipeCache.tla" % r.violated)
+    if not r.emitted:
+        raise core.MachineryError("RecipeCache emitted no histories")
+    base = chk.tmp()
+    os.makedirs(base)
+    files = {}
+    for f, txt in RECIPE_TEXT.items():
+        os.makedirs(os.path.join(base, "case_" + f))
+        files[f] = os.path.join(base, "case_" + f, "recipe.py")
+        open(files[f], "w").write(txt)
+    rng = random.Random(chk.seed + 11)
+    cfg_ = gamma.Config.draw(rng, ndims=3, payload="tame")
+    ap = gamma.make_ap("A", ["p", "q", "r"], [[1, 2, 1], [2, 1]],
+                       [{"file": [1, 2, 1], "disk": {"1": [3, 1], "2": [2]}}, {"file": [1, 2], "disk": {"1": [1], "2": [2]}}], ndims=3)
+    src = os.path.join(base, "plt00100")
+    reg = gamma.write_plotfile(src, ap, cfg_)
+    hs = sorted((h["hist"] for h in r.emitted), key=core.jdump)
+    if only is not None:
+        hs = [only]
+    for hi, h in enumerate(hs):
+        v = None
+        for k, c in enumerate(h):
+            out = os.path.join(base, "out_%d_%d" % (hi, k))
+            import signal
+
+            def _late(signum, frame):
+                raise TimeoutError("the cook did not come back within 90 s")
+            old_h = signal.signal(signal.SIGALRM, _late)
+            signal.alarm(90)
+            try:
+                with core.quiet():
+                    Chef(src, recipe=files[c["file"]], outfile=out, serial=not c["parallel"]).cook()
+            except TimeoutError as e:
+                v = "cook %d (%s, %s) of the history %s: %s" % (k + 1, c["file"], "parallel" if c["parallel"] else "serial", core.jdump(h), e)
+                hung = True
+                break
+            except Exception as e:
+                v = "cook %d (%s, %s) raised %s: %s" % (k + 1, c["file"], "parallel" if c["parallel"] else "serial", type(e).__name__, str(e)[:150])
+                break
+            finally:
+                signal.alarm(0)
+                signal.signal(signal.SIGALRM, old_h)
+            A = alpha.abstract(out)
+            wf = alpha.wellformed(A)
+            if wf or "new1" not in A["hdr"]["fields"]:
+                v = "cook %d: output malformed or without the field new1: %s %r" % (k + 1, "; ".join(wf[:2]), A.get("hdr", {}).get("fields"))
+                break
+            j = A["hdr"]["fields"].index("new1")
+            for l, C in enumerate(A["lev"]):
+                for bi, (idx, (fn, off)) in enumerate(zip(C["idx"], C["fod"])):
+                    b = [bx for bx, box in enumerate(ap["levels"][l]["boxes"]) if [box["lo"], box["hi"]] == idx][0]
+                    x0 = reg.array_of(("A", l, b + 1, 1))
+                    x1 = reg.array_of(("A", l, b + 1, 2))
+                    want = {"A": x0 * 2.0 + x1, "B": x0 - 3.0 * x1}
+                    got = alpha.read_fab_at(os.path.join(out, C["dir"], fn), off)["arrays"][j]
+                    if not np.array_equal(got, want[c["file"]]):
+                        other = [f for f in want if f != c["file"] and np.array_equal(got, want[f])]
+                        v = "cook %d of the history %s: the new field of level %d box %d is not the recipe of file %s evaluated on the box%s" % (
+                            k + 1, core.jdump(h), l, bi, c["file"], " -- it is the recipe of file %s (same file name, other directory)" % other[0] if other else "")
+                        break
+                if v:
+                    break
+            if v:
+                break
+        sig = util.sig_str("recipe-history", [[c["file"], "parallel" if c["parallel"] else "serial"] for c in h])
+        chk.executed(sig, True, sample={"history": h})
+        chk.traces += 1
+        if v:
+            chk.violation(sig, v, {"recipe_history": h})
+            if locals().get("hung"):
+                break              # the cached pool is wedged: nothing after this would be judged fairly
+
+
 def selection_phase(chk, scenarios):
     """ChefSel.tla: every duplicate-free selection (in any order) of species / reactions for SRi, SDi, RRi."""
     r = chk.add_tlc(tlc.run("ChefSel", {"INIT": "Init", "NEXT": "Next", "CONSTANTS": {"NS": 5, "MaxSel": 3, "IndexMode": '"list"'},
@@ -438,6 +527,9 @@ def run(chk, replay):
                 "trivial = (1 level, no kept field, one file mono, fifo, user recipe u1)")
     chk.assumptions = ["cantera evaluated cell by cell through a scalar Solution is the reference for built-in recipes (rtol 1e-9)",
                        "generated thermochemical states are physical (400-2400 K, positive normalised Y): the code's cleaning of zero states never triggers"]
+    if replay and replay["scenario"].get("recipe_history"):
+        chk.executed("replay")
+        return recipe_histories(chk, only=replay["scenario"]["recipe_history"])
     if replay:
         s = replay["scenario"]
         v = run_scenario(chk, s["sc"], s["cfgseed"], s["recipe"])
@@ -469,6 +561,7 @@ def run(chk, replay):
         if v:
             chk.violation(sigs, v, {"sc": sc, "cfgseed": cfgseed, "recipe": recipe, "sigs": sigs})
     run_histories(chk, scenarios)
+    recipe_histories(chk)
     selection_phase(chk, scenarios)
     # code -> spec: cooks (user recipe, serial and parallel) recorded on large generated plotfiles (Chef!CookSpecG in OpTrace.tla)
     from harness import optrace
